@@ -36,7 +36,7 @@ var (
 )
 
 // epoch keeps simulated times away from the zero Time.
-const epoch = int64(1600000000) * int64(rtime.Second)
+const epoch = simrt.EpochNS
 
 func Now() Time { return rtime.Unix(0, epoch+simrt.NowNS()).UTC() }
 
